@@ -81,6 +81,65 @@ macro_rules! check_value {
     }};
 }
 
+/// Placement sweep: one wrapper type stored and loaded at every offset 0..=24 of an 8-aligned
+/// container whose bytes are not zero, through the object, slice and typed-reference routes of a
+/// volatile slice and of mmap-backed guest memory; the whole container is compared afterwards.
+macro_rules! placement {
+    ($ctx:expr, $W:ident, $N:ty, $tobytes:ident, $vals:expr, $mem:expr) => {{
+        let sz = size_of::<$N>();
+        let mut store = [0u64; 6];
+        // SAFETY: store outlives vs
+        let vs: VolatileSlice<()> = unsafe { VolatileSlice::new(store.as_mut_ptr() as *mut u8, 48) };
+        let mem: &vm_memory::GuestMemoryMmap<()> = $mem;
+        for off in 0..=24usize {
+            for (vi, v64) in $vals.iter().enumerate() {
+                let v = *v64 as $N;
+                let w: $W = v.into();
+                let want = v.$tobytes();
+                let fill = if vi % 2 == 0 { 0xa5u8 } else { 0x00 };
+                for route in 0..5usize {
+                    $ctx.case(true);
+                    let mut expect = [fill; 48];
+                    expect[off..off + sz].copy_from_slice(&want);
+                    let (got, back): ([u8; 48], $W) = match route {
+                        0 | 1 | 2 => {
+                            vs.write_slice(&[fill; 48], 0).unwrap();
+                            match route {
+                                0 => vs.write_obj(w, off).unwrap(),
+                                1 => vs.write_slice(w.as_slice(), off).unwrap(),
+                                _ => {
+                                    use vm_memory::VolatileMemory;
+                                    vs.get_ref::<$W>(off).unwrap().store(w)
+                                }
+                            }
+                            let mut g = [0u8; 48];
+                            vs.read_slice(&mut g, 0).unwrap();
+                            (g, vs.read_obj(off).unwrap())
+                        }
+                        _ => {
+                            use vm_memory::GuestAddress;
+                            let base = 0x1000u64;
+                            mem.write_slice(&[fill; 48], GuestAddress(base)).unwrap();
+                            if route == 3 {
+                                mem.write_obj(w, GuestAddress(base + off as u64)).unwrap();
+                            } else {
+                                mem.write(w.as_slice(), GuestAddress(base + off as u64)).unwrap();
+                            }
+                            let mut g = [0u8; 48];
+                            mem.read_slice(&mut g, GuestAddress(base)).unwrap();
+                            (g, mem.read_obj(GuestAddress(base + off as u64)).unwrap())
+                        }
+                    };
+                    if got != expect || back != w || back.to_native() != v {
+                        let key = format!("C20/{}/wire-format-at-offset", stringify!($W));
+                        $ctx.fail(&key, &format!("value {:#x} at offset {} (route {}, container filled with {:#x}): container {:02x?}, expected {:02x?}; read back {:#x}", v, off, route, fill, &got[off.saturating_sub(2)..(off + sz + 2).min(48)], &expect[off.saturating_sub(2)..(off + sz + 2).min(48)], back.to_native()), json!({"type": stringify!($W), "value": format!("{:#x}", v), "offset": off, "route": route, "fill": fill}));
+                    }
+                }
+            }
+        }
+    }};
+}
+
 fn structured64() -> impl Iterator<Item = u64> {
     const B: [u8; 6] = [0x00, 0x01, 0x7f, 0x80, 0xfe, 0xff];
     (0..6usize.pow(8)).map(|mut k| {
@@ -95,7 +154,7 @@ fn structured64() -> impl Iterator<Item = u64> {
 
 pub fn run(tier: Tier, replay: Option<String>) -> i32 {
     let ctx = crate::new_ctx("C20", tier, "exploration", &replay);
-    ctx.set_rule("all 2^16 values for Le16/Be16; all 2^32 values for Le32/Be32 in the thorough tier (quick: every value whose bytes are drawn from {00,01,7f,80,fe,ff} plus rotations of 0x01234567 and single bits); for Le64/Be64/LeSize/BeSize every value whose 8 bytes are drawn from {00,01,7f,80,fe,ff} (6^8 = 1679616 values; every 36th in the quick tier) plus all rotations of 0x0123456789abcdef and all single-bit values. Per value: native->wrapper->native, in-memory bytes == to_le_bytes/to_be_bytes, == with the represented value both ways, != with v^1, the byte-swapped and a rotated value, and (every 97th value) the bytes found in a volatile slice after write_obj at an unaligned offset. Non-trivial = the value is not a byte palindrome (its two byte orders differ). Distinct by construction.");
+    ctx.set_rule("all 2^16 values for Le16/Be16; all 2^32 values for Le32/Be32 in the thorough tier (quick: every value whose bytes are drawn from {00,01,7f,80,fe,ff} plus rotations of 0x01234567 and single bits); for Le64/Be64/LeSize/BeSize every value whose 8 bytes are drawn from {00,01,7f,80,fe,ff} (6^8 = 1679616 values; every 36th in the quick tier) plus all rotations of 0x0123456789abcdef and all single-bit values. Per value: native->wrapper->native, in-memory bytes == to_le_bytes/to_be_bytes, == with the represented value both ways, != with v^1, the byte-swapped and a rotated value, and (every 97th value) the bytes found in a volatile slice after write_obj at an unaligned offset. Placement sweep: every wrapper x every offset 0..=24 of an 8-aligned container (so every address class mod 8) x 20 boundary values (thorough: + all rotations and single bits) x container pre-filled with 0xa5 / 0x00 x five routes (write_obj, write_slice of as_slice, typed reference store on a volatile slice; write_obj and write on mmap-backed guest memory): the whole container must equal the fill with exactly the wire bytes at the offset, and read_obj must return the value. Non-trivial = the value is not a byte palindrome (its two byte orders differ). Distinct by construction.");
     ctx.assume("64-bit and pointer-sized wrappers are covered by a bounded byte alphabet, not exhaustively");
     let mut fails = 0;
     for (n, s, a) in [
@@ -179,6 +238,22 @@ pub fn run(tier: Tier, replay: Option<String>) -> i32 {
         check_value!(ctx, Be64, u64, v, to_be_bytes, sl);
         check_value!(ctx, LeSize, usize, v as usize, to_le_bytes, sl);
         check_value!(ctx, BeSize, usize, v as usize, to_be_bytes, sl);
+    }
+    {
+        let mem = vm_memory::GuestMemoryMmap::<()>::from_ranges(&[(vm_memory::GuestAddress(0x1000), 4096)]).unwrap();
+        let mut vals: Vec<u64> = vec![0, 1, 0xff, 0x100, 0x7fff, 0x8000, 0xffff, 0x1_0000, 0x7fff_ffff, 0x8000_0000, 0xffff_ffff, 0x1_0000_0000, 0x1_0000_0001, 0x0123_4567_89ab_cdef, 0xfedc_ba98_7654_3210, 0x8000_0000_0000_0000, u64::MAX, u64::MAX - 1, 0x00ff_00ff_00ff_00ff, 0xff00_ff00_ff00_ff00];
+        if tier.thorough() {
+            vals.extend((0..64).map(|r| 0x0123_4567_89ab_cdefu64.rotate_left(r)));
+            vals.extend((0..64).map(|r| 1u64 << r));
+        }
+        placement!(ctx, Le16, u16, to_le_bytes, vals, &mem);
+        placement!(ctx, Be16, u16, to_be_bytes, vals, &mem);
+        placement!(ctx, Le32, u32, to_le_bytes, vals, &mem);
+        placement!(ctx, Be32, u32, to_be_bytes, vals, &mem);
+        placement!(ctx, Le64, u64, to_le_bytes, vals, &mem);
+        placement!(ctx, Be64, u64, to_be_bytes, vals, &mem);
+        placement!(ctx, LeSize, usize, to_le_bytes, vals, &mem);
+        placement!(ctx, BeSize, usize, to_be_bytes, vals, &mem);
     }
     ctx.sample(json!({"type": "Be32", "value": "0x0100007f", "bytes_expected": "01 00 00 7f", "checks": "round trip, as_slice, ==, != 0x7f000001 (byte-swapped), write_obj at offset 3 then raw bytes"}));
     ctx.sample(json!({"type": "Le64", "value": "0x80ff7f0100fe01ff", "bytes_expected": "ff 01 fe 00 01 7f ff 80"}));
